@@ -131,7 +131,9 @@ fn main() {
         if a.data.verify(a.proof.clone()).is_err() {
             machinery_error(&format!("alternative circuit '{}' does not verify its own proof", a.name));
         }
-        if a.data.verifier_only.circuit_digest == leaf.verifier_only.circuit_digest {
+        // (an alternative may share the digest - e.g. one more unused wire column changes neither
+        // constants nor permutation - as long as its common data, hence its proof shape, differs)
+        if a.data.verifier_only.circuit_digest == leaf.verifier_only.circuit_digest && a.data.common == leaf.common {
             machinery_error(&format!("alternative circuit '{}' is the canonical leaf circuit", a.name));
         }
     }
